@@ -595,6 +595,7 @@ FIXED_PROGRAMS = ['#queue [1]', '#queue 1', '#inst "2020-01-02T03:04:05Z"', '#in
                   '#true 1', '"\\u6a91090e"', '"\\u00e9"', '#b "a\\x41"', '#b "\xe9"', '#:a{:b 1 c 2}', '#::{:b 1}',
                   "^:m ^{:k 1} [a]", "#(+ % %2)", "`(a ~b ~@c d#)", "#'foo/bar", "##Inf", "#_#_a b c",
                   # unhashable values (Python lists / dicts / sets) as set elements and map keys
+                  "#:a\n {:b 1}", "[#:a\n\n  {:b 1} 2]", "#:a   {:b 1}",
                   "#{#py []}", "#{[1] #py {}}",
                   # \u / \U escapes outside the code-point range (chr raises ValueError or OverflowError)
                   '"\\U8001F600"', '"\\U00110000"', '"\\UFFFFFFFF"', '"\\U0001F600"', "#{#py #{1}}", "{#py [] 1}", "#{1 1}", "{1 2 1 3}"]
@@ -644,7 +645,7 @@ class Gen:
         if k == 8:
             return "`(" + " ".join(r.choice(["a", "~b", "~@c", "d#", "[e ~f]", "'g"]) for _ in range(r.randrange(1, 4))) + ")"
         if k == 9:
-            return r.choice(["#:ns", "#::"]) + r.choice(["", " "]) + "{" + " ".join(
+            return r.choice(["#:ns", "#::"]) + r.choice(["", " ", "\n", "\n  "]) + "{" + " ".join(
                 kk + " " + sub() for kk in r.sample([":a", ":b", "c", ":_/d"], r.randrange(3))) + "}"
         if k == 10:
             return "(" + seq(2) + "\n " + seq(2) + ")"
